@@ -9,8 +9,8 @@ ID = "C04"
 RULE = (
     "grammar-generated legal text spliced with hostile fragments (Unicode spaces, non-ASCII digits, NUL/C0, lone "
     "brackets, long digit runs, section signs glued to words, placeholder pages) and character mutations, plus raw "
-    "hostile-alphabet strings, plus an enumerated family of long inputs (37 units x 40 ... 3,000 repetitions - thorough "
-    "40,000 - x 2 prefixes x 4 suffixes: beyond every scan window and recursion depth); each evaluated under {ref, ac, hs} x remove_ambiguous x {unchecked, skip, wrap}. "
+    "hostile-alphabet strings, plus an enumerated family of long inputs (40 units x 40 ... 4,400 repetitions - thorough "
+    "40,000 - x 3 prefixes x 4 suffixes: beyond every scan window and recursion depth); each evaluated under {ref, ac, hs} x remove_ambiguous x {unchecked, skip, wrap}. "
     "Oracle: no exception escapes get_citations / resolve_citations / annotate_citations; exceptions are bucketed by "
     "(type, innermost eyecite frame). Non-trivial: the text contains a hostile (non-ASCII or control) character or a "
     "placeholder page and yields >= 1 citation, or an id. citation was resolved against an antecedent; "
@@ -84,15 +84,15 @@ def evaluate(case):
 
 LONG_UNITS = ["(", ")", "( a", "Id. at 3. ", "Bar, supra, at 5. ", "1 U.S. 1, ", ", 2", "v. ", "\u00a7 ", "\u00a7\u00a7", "_", "___ ", "\n", " ",
               "\u00a0", "1 ", "a", "Bar ", "[", "<i>", "</i>", "See ", "at ", "1 U.S. at 3; ", "\u00e9", "(1999) ", "n. 5, ", "& ", "* ", "-", "2d ",
-              "In re ", "\u201c", "12 F.2d 34 (quoting ", ") (", "; id.", "\t"]
+              "In re ", "\u201c", "12 F.2d 34 (quoting ", ") (", "; id.", "\t", "9", "x", "xi"]
 
 
 def _long_items(tier):
     """Repetition beyond every internal window (28 tokens, 300 characters, recursion depth, block sizes)."""
-    reps = [40, 400, 3000] if tier == "quick" else [40, 400, 3000, 40000]
+    reps = [40, 400, 3000, 4400] if tier == "quick" else [40, 400, 3000, 4400, 40000]
     out = []
     for ui, unit in enumerate(LONG_UNITS):
-        for pre in ("", "Foo v. Bar, 1 U.S. 1 "):
+        for pre in ("", "Foo v. Bar, 1 U.S. 1 ", "Foo v. Bar, 2 U.S. "):
             for post in ("", " 1 U.S. 1 (1999)", ", supra.", " Id. at 5"):
                 for r in reps:
                     if r * len(unit) > 120000:
